@@ -2,6 +2,8 @@ package prog
 
 import (
 	"bytes"
+	"crypto/md5"
+	"encoding/base64"
 	"encoding/xml"
 	"fmt"
 	"io"
@@ -845,6 +847,19 @@ func (r *Runner) stepMultipart(op Op) []Disc {
 	case "part":
 		u := r.Upload(op.Ref)
 		if u == nil {
+			return nil
+		}
+		if op.Via == "bad-md5" {
+			// a part sent with the digest of other bytes: refused, and the upload keeps what it had
+			// (only generated where the integrity check is on)
+			sum := md5.Sum(append([]byte("not the bytes of this part: "), op.Body...))
+			resp := r.do(r.req("PUT", u.B, u.Key, s3x.Q("partNumber", fmt.Sprint(op.PartN), "uploadId", u.ID), s3x.H("Content-MD5", base64.StdEncoding.EncodeToString(sum[:])), op.Body))
+			if resp.Panic != "" {
+				return fail("panic", "upload part with a wrong digest: %s at %s", resp.Panic, resp.PanicSite)
+			}
+			if resp.Status/100 == 2 {
+				return fail("corrupt-part-accepted", "part %d of upload %s sent with the Content-MD5 of other bytes was answered %s", op.PartN, u.ID, resp)
+			}
 			return nil
 		}
 		resp := r.do(r.req("PUT", u.B, u.Key, s3x.Q("partNumber", fmt.Sprint(op.PartN), "uploadId", u.ID), nil, op.Body))
